@@ -43,7 +43,7 @@ REQUIRED_COUNTERS = {"solves": 150, "optimal_vs_reference_optimum": 100, "zero_d
                      "reused_solver_solves": 30, "recirc_instances": 20}
 WORKERS = {"quick": 4, "thorough": 14}
 HARD_TIMEOUT_S = {"quick": 900, "thorough": 7200}
-CLASSES = ["classic", "irregular", "recirc", "zero_nf", "zero_nf", "gap", "degenerate", "longjob"]
+CLASSES = ["classic", "irregular", "recirc", "zero_nf", "zero_nf", "gap", "degenerate", "longjob", "huge_nf"]
 BENCH_QUICK = ["ft06", "la01", "la02"]
 BENCH_THOROUGH = ["ft06", "ft10", "la01", "la02", "la03", "la04", "la05", "la06", "la07", "la08",
                   "la09", "la10", "la11", "la12", "la13", "la14", "la15", "la16", "la17", "la18",
